@@ -261,6 +261,9 @@ JudgeRel(e) ==
   CASE e.kind = "eq" ->      \* same source meaning => identical result
          IF A.status # B.status \/ A.clean # B.clean THEN {Mk("outcome class differs", <<e.a, e.b>>)}
          ELSE IF A.status = "ok" /\ A.sha # B.sha THEN {Mk("outputs differ", <<e.a, e.b>>)} ELSE {}
+    [] e.kind = "eqpre" ->   \* b = a followed by further statements: a's image is a prefix of b's (C11: the EQU twin plus `$`-bodied uses)
+         IF ~(A.clean /\ B.clean) THEN (IF A.clean # B.clean THEN {Mk("outcome class differs", <<e.a, e.b>>)} ELSE {})
+         ELSE IF Len(A.out) > Len(B.out) \/ Take(B.out, Len(A.out)) # A.out THEN {Mk("outputs differ", <<e.a, e.b>>)} ELSE {}
     [] e.kind = "ref" ->     \* C10: the result of this call equals the fresh-process reference of its program
          LET X == refs[e.p] IN
          IF A.status # X.status \/ A.clean # X.clean THEN {Mk("outcome class differs from the fresh-process reference", <<e.a, e.p>>)}
